@@ -4,7 +4,7 @@
    the finished TLSF development (TlsfStep.step_preserves, live_effect, Inv1). *)
 From Coq Require Import ZArith List Bool Lia.
 From Arsenal Require Import Util Bits Gran Tlsf TlsfGeom TlsfInv1 TlsfFree TlsfAlloc TlsfStep TlsfProps
-  Pass PassProofs Defrag.
+  SizeClass TlsfInv2 TlsfInv2Free TlsfInv2Alloc TlsfSearch TlsfStep2 Pass PassProofs Defrag.
 Import ListNotations.
 Open Scope Z_scope.
 
@@ -143,22 +143,23 @@ Proof. intros H. unfold round_up. rewrite H. destruct (g_h g); reflexivity. Qed.
 Lemma live_same_chain t t' : t_chain t' = t_chain t -> live t' = live t.
 Proof. unfold live. intros ->. reflexivity. Qed.
 
-(* CreateAllocationRequest followed by Alloc, as the planner and the block list issue them *)
+(* CreateAllocationRequest followed by Alloc, as the planner and the block list issue them: a
+   granted request never panics and Alloc never fails on it (second TLSF invariant) *)
 Lemma request_alloc_spec t size align kind strat mo tag t1 r :
-  TInv t -> pow2 align -> create_request t size align false kind strat mo = QGranted t1 r ->
-  TInv t1 /\ t_gran t1 = t_gran t /\ live t1 = live t /\ t_size t1 = t_size t /\
+  TInv t -> Inv2 t -> pow2 align -> create_request t size align false kind strat mo = QGranted t1 r ->
+  TInv t1 /\ Inv2 t1 /\ t_gran t1 = t_gran t /\ live t1 = live t /\ t_size t1 = t_size t /\
   rq_offset r < mo /\ rq_block r <= rq_offset r /\ 1 <= size /\
   (g_g (t_gran t) = 1 -> rq_size r = size) /\
-  match alloc t1 r tag size align with
-  | AOk t2 h =>
-    TInv t2 /\ g_g (t_gran t2) = g_g (t_gran t) /\ t_size t2 = t_size t /\ h = rq_offset r /\
-    exists l1 l2, live t = l1 ++ l2 /\ live t2 = l1 ++ new_blk h (rq_size r) tag kind size align :: l2
-  | _ => True
-  end.
+  exists t2 h, alloc t1 r tag size align = AOk t2 h /\
+    TInv t2 /\ Inv2 t2 /\ g_g (t_gran t2) = g_g (t_gran t) /\ t_size t2 = t_size t /\ h = rq_offset r /\
+    exists l1 l2, live t = l1 ++ l2 /\ live t2 = l1 ++ new_blk h (rq_size r) tag kind size align :: l2.
 Proof.
-  intros HT Hpa Hcr. pose proof HT as [Hinv Hpg].
+  intros HT HI2 Hpa Hcr. pose proof HT as [Hinv Hpg].
   pose proof (step_preserves t (OAlloc size align kind strat false mo tag) HT Hpa) as Hstep.
-  cbn [step] in Hstep. rewrite Hcr in Hstep.
+  pose proof (step2_preserves t (OAlloc size align kind strat false mo tag) HT HI2 Hpa) as Hstep2.
+  pose proof (step2_preserves t (ORequest size align kind strat false mo) HT HI2 Hpa) as Hreq2.
+  cbn [step] in Hstep, Hstep2, Hreq2. rewrite Hcr in Hstep, Hstep2, Hreq2. cbn [fst] in Hreq2.
+  destruct (tlsf_alloc_no_error t size align kind strat false mo tag t1 r HT HI2 Hpa Hcr) as (t2 & h & Hal & _).
   pose proof Hcr as Hcr0.
   apply create_request_granted in Hcr. destruct Hcr as (Hs1 & _ & Hgr).
   pose proof Hgr as Hgr0.
@@ -166,7 +167,7 @@ Proof.
   pose proof (Inv1_shape _ _ Hshape Hinv) as Hinv1.
   destruct Hshape as (Hc1 & Hn1 & Hsz1 & Hg1 & Ha1).
   assert (HT1 : TInv t1) by (split; [auto|rewrite Hg1; auto]).
-  split; [exact HT1|]. split; [exact Hg1|]. split; [apply live_same_chain; exact Hc1|]. split; [exact Hsz1|].
+  split; [exact HT1|]. split; [exact Hreq2|]. split; [exact Hg1|]. split; [apply live_same_chain; exact Hc1|]. split; [exact Hsz1|].
   split; [exact Hmo|].
   assert (Hlo : rq_block r <= rq_offset r).
   { destruct Hcase as [(Hnull & Hfits)|(Hnull & b & Hin & Hrb & Hbf & Hfits)].
@@ -179,11 +180,11 @@ Proof.
   split.
   { intros Hone. destruct Hgr0 as (b & li & Hcb & _). apply check_block_spec in Hcb.
     destruct Hcb as (_ & _ & Hrs & _). rewrite Hrs, round_up_g1 by auto. reflexivity. }
-  destruct (alloc t1 r tag size align) as [t2 h| |] eqn:Hal; auto.
-  cbn [fst snd live_effect o_kind o_off o_size] in Hstep.
+  exists t2, h. split; [exact Hal|]. rewrite Hal in Hstep, Hstep2.
+  cbn [fst snd live_effect o_kind o_off o_size] in Hstep, Hstep2.
   destruct Hstep as (HT2 & Hle & Hsz2).
   pose proof (alloc_gran _ _ _ _ _ _ _ Hal) as Hgg.
-  split; [exact HT2|]. split; [rewrite Hgg, Hg1; reflexivity|]. split; [exact Hsz2|].
+  split; [exact HT2|]. split; [exact Hstep2|]. split; [rewrite Hgg, Hg1; reflexivity|]. split; [exact Hsz2|].
   assert (Hh : h = rq_offset r).
   { destruct Hcase as [(Hnull & Hfits)|(Hnull & b & Hin & Hrb & Hbf & Hfits)].
     - rewrite <- Hn1 in Hfits.
@@ -203,7 +204,7 @@ Definition holds (st : dstate) := holdsb (d_blocks st).
 
 Record WFB (bl : list (Z * tlsf)) : Prop := mkWFB {
   wb_ids : NoDup (map fst bl);
-  wb_tinv : forall id t, find_id id bl = Some t -> TInv t /\ g_g (t_gran t) = 1
+  wb_tinv : forall id t, find_id id bl = Some t -> TInv t /\ g_g (t_gran t) = 1 /\ Inv2 t
 }.
 
 Lemma holdsb_fun bl id off b1 b2 : WFB bl -> holdsb bl id off b1 -> holdsb bl id off b2 -> b1 = b2.
@@ -231,9 +232,9 @@ Record WF (st : dstate) : Prop := mkWF {
 (* ------------------------------------------------------------------ block-level steps *)
 
 Lemma wfb_set bl id t t' :
-  WFB bl -> find_id id bl = Some t -> TInv t' -> g_g (t_gran t') = 1 -> WFB (set_id id t' bl).
+  WFB bl -> find_id id bl = Some t -> TInv t' -> g_g (t_gran t') = 1 -> Inv2 t' -> WFB (set_id id t' bl).
 Proof.
-  intros [Hids HT] Hf HT' Hg. constructor.
+  intros [Hids HT] Hf HT' Hg HI'. constructor.
   - rewrite set_id_ids. exact Hids.
   - intros id' t''. rewrite (find_set_id _ _ _ _ _ Hf). destruct (id' =? id).
     + intros H; injection H as <-. auto.
@@ -422,13 +423,14 @@ Qed.
 (* ------------------------------------------------------------------ releasing a slot *)
 
 Lemma step_free_spec t h t' :
-  TInv t -> g_g (t_gran t) = 1 -> tlsf_free t h = FOk t' ->
-  TInv t' /\ g_g (t_gran t') = 1 /\ t_size t' = t_size t /\
+  TInv t -> g_g (t_gran t) = 1 -> Inv2 t -> tlsf_free t h = FOk t' ->
+  TInv t' /\ g_g (t_gran t') = 1 /\ Inv2 t' /\ t_size t' = t_size t /\
   exists l1 b l2, live t = l1 ++ b :: l2 /\ b_off b = h /\ live t' = l1 ++ l2.
 Proof.
-  intros HT Hg Hf. pose proof (step_preserves t (OFree h) HT I) as Hs. cbn [step] in Hs. rewrite Hf in Hs.
+  intros HT Hg HI2 Hf. pose proof (step_preserves t (OFree h) HT I) as Hs. cbn [step] in Hs. rewrite Hf in Hs.
+  pose proof (step2_preserves t (OFree h) HT HI2 I) as Hs2. cbn [step] in Hs2. rewrite Hf in Hs2. cbn [fst] in Hs2.
   cbn [fst snd live_effect o_kind out] in Hs. destruct Hs as (HT' & Hle & Hsz).
-  split; [exact HT'|]. split; [|split; [exact Hsz|exact Hle]].
+  split; [exact HT'|]. split; [|split; [exact Hs2|split; [exact Hsz|exact Hle]]].
   destruct HT as (Hinv & _). destruct (tlsf_free_inv1 _ _ _ Hinv Hf) as (_ & _ & _ & (b0 & g' & _ & Hfr & Hgg) & _).
   rewrite Hgg. erewrite free_regions_g; eauto.
 Qed.
@@ -443,8 +445,8 @@ Proof.
   destruct (find_id (u_blk e) (d_blocks st)) as [t|] eqn:Hf; [|discriminate].
   destruct (tlsf_free t (u_off e)) as [t'| |] eqn:Hfr; try discriminate.
   intros H; injection H as <-.
-  destruct (wb_tinv _ (wf_b _ HW) _ _ Hf) as (HT & Hg).
-  destruct (step_free_spec _ _ _ HT Hg Hfr) as (HT' & Hg' & _ & l1 & b & l2 & Hl & Hb & Hl').
+  destruct (wb_tinv _ (wf_b _ HW) _ _ Hf) as (HT & Hg & HI2).
+  destruct (step_free_spec _ _ _ HT Hg HI2 Hfr) as (HT' & Hg' & HI2' & _ & l1 & b & l2 & Hl & Hb & Hl').
   assert (Hlt : (s < length (d_table st))%nat) by (eapply entry_lt; eauto).
   split.
   { unfold set_block. eapply wf_del_entry; eauto.
@@ -465,58 +467,58 @@ Qed.
 (* ================================================================== 4. allocating *)
 
 Lemma alloc_in_spec t size align kind strat mo tag :
-  TInv t -> g_g (t_gran t) = 1 -> pow2 align ->
+  TInv t -> g_g (t_gran t) = 1 -> Inv2 t -> pow2 align ->
   match alloc_in t size align kind strat mo tag with
   | AIOk t' off =>
-    TInv t' /\ g_g (t_gran t') = 1 /\ off < mo /\ 1 <= size /\
+    TInv t' /\ g_g (t_gran t') = 1 /\ Inv2 t' /\ off < mo /\ 1 <= size /\
     exists l1 l2, live t = l1 ++ l2 /\ live t' = l1 ++ new_blk off size tag kind size align :: l2
-  | AINo t' => TInv t' /\ g_g (t_gran t') = 1 /\ live t' = live t
-  | AIPanic => True
+  | AINo t' => t' = t
+  | AIPanic => False
   end.
 Proof.
-  intros HT Hg Hpa. unfold alloc_in.
+  intros HT Hg HI2 Hpa. unfold alloc_in.
+  pose proof (create_request_ok t size align false kind strat mo HT HI2 Hpa) as Hok.
   destruct (create_request t size align false kind strat mo) as [t1 r| | |] eqn:Hcr; auto.
-  destruct (request_alloc_spec _ _ _ _ _ _ tag _ _ HT Hpa Hcr) as (HT1 & Hg1 & Hl1 & _ & Hmo & _ & Hs1 & Hrs & Hal).
-  destruct (alloc t1 r tag size align) as [t2 h| |]; auto.
-  - destruct Hal as (HT2 & Hg2 & _ & -> & l1 & l2 & Hl & Hl2). rewrite (Hrs Hg) in Hl2.
-    split; [exact HT2|]. split; [congruence|]. split; [exact Hmo|]. split; [exact Hs1|]. exists l1, l2. auto.
-  - split; [exact HT1|]. split; [congruence|exact Hl1].
+  destruct (request_alloc_spec _ _ _ _ _ _ tag _ _ HT HI2 Hpa Hcr)
+    as (HT1 & _ & Hg1 & Hl1 & _ & Hmo & _ & Hs1 & Hrs & t2 & h & Hal & HT2 & HI2' & Hg2 & _ & -> & l1 & l2 & Hl & Hl2).
+  rewrite Hal. rewrite (Hrs Hg) in Hl2.
+  split; [exact HT2|]. split; [congruence|]. split; [exact HI2'|]. split; [exact Hmo|]. split; [exact Hs1|]. exists l1, l2. auto.
 Qed.
 
 Lemma alloc_lower_spec t size align kind offset tag :
-  TInv t -> g_g (t_gran t) = 1 -> pow2 align ->
+  TInv t -> g_g (t_gran t) = 1 -> Inv2 t -> pow2 align -> 1 <= size ->
   match alloc_lower t size align kind offset tag with
   | AIOk t' off =>
-    TInv t' /\ g_g (t_gran t') = 1 /\ off < offset /\ 1 <= size /\
+    TInv t' /\ g_g (t_gran t') = 1 /\ Inv2 t' /\ off < offset /\ 1 <= size /\
     exists l1 l2, live t = l1 ++ l2 /\ live t' = l1 ++ new_blk off size tag kind size align :: l2
-  | AINo t' => TInv t' /\ g_g (t_gran t') = 1 /\ live t' = live t
-  | AIPanic => True
+  | AINo t' => t' = t
+  | AIPanic => False
   end.
 Proof.
-  intros HT Hg Hpa. unfold alloc_lower.
+  intros HT Hg HI2 Hpa Hsz. unfold alloc_lower.
+  pose proof (create_request_ok t size align false kind 4 offset HT HI2 Hpa) as Hok.
   destruct (create_request t size align false kind 4 offset) as [t1 r| | |] eqn:Hcr; auto.
-  destruct (request_alloc_spec _ _ _ _ _ _ tag _ _ HT Hpa Hcr) as (HT1 & Hg1 & Hl1 & _ & Hmo & _ & Hs1 & Hrs & Hal).
-  destruct (rq_block r <? offset).
-  - destruct (alloc t1 r tag size align) as [t2 h| |]; auto.
-    + destruct Hal as (HT2 & Hg2 & _ & -> & l1 & l2 & Hl & Hl2). rewrite (Hrs Hg) in Hl2.
-      split; [exact HT2|]. split; [congruence|]. split; [exact Hmo|]. split; [exact Hs1|]. exists l1, l2. auto.
-    + split; [exact HT1|]. split; [congruence|exact Hl1].
-  - split; [exact HT1|]. split; [congruence|exact Hl1].
+  2:{ apply create_request_error in Hcr. destruct Hcr; [lia|discriminate]. }
+  destruct (request_alloc_spec _ _ _ _ _ _ tag _ _ HT HI2 Hpa Hcr)
+    as (HT1 & _ & Hg1 & Hl1 & _ & Hmo & Hlo & Hs1 & Hrs & t2 & h & Hal & HT2 & HI2' & Hg2 & _ & -> & l1 & l2 & Hl & Hl2).
+  destruct (rq_block r <? offset) eqn:E; [|apply Z.ltb_ge in E; lia].
+  rewrite Hal. rewrite (Hrs Hg) in Hl2.
+  split; [exact HT2|]. split; [congruence|]. split; [exact HI2'|]. split; [exact Hmo|]. split; [exact Hs1|]. exists l1, l2. auto.
 Qed.
 
 (* the bound test of allocIfLowerOffset never rejects a granted request (the request's region
    starts at or before the granted offset, which is below the bound) *)
 Lemma alloc_lower_is_alloc_in t size align kind offset tag :
-  TInv t -> pow2 align ->
+  TInv t -> Inv2 t -> pow2 align ->
   alloc_lower t size align kind offset tag =
   match create_request t size align false kind 4 offset with
   | QError => AIPanic
   | _ => alloc_in t size align kind 4 offset tag
   end.
 Proof.
-  intros HT Hpa. unfold alloc_lower, alloc_in.
+  intros HT HI2 Hpa. unfold alloc_lower, alloc_in.
   destruct (create_request t size align false kind 4 offset) as [t1 r| | |] eqn:Hcr; auto.
-  destruct (request_alloc_spec _ _ _ _ _ _ tag _ _ HT Hpa Hcr) as (_ & _ & _ & _ & Hmo & Hlo & _).
+  destruct (request_alloc_spec _ _ _ _ _ _ tag _ _ HT HI2 Hpa Hcr) as (_ & _ & _ & _ & _ & Hmo & Hlo & _).
   destruct (rq_block r <? offset) eqn:E; [reflexivity|]. apply Z.ltb_ge in E. lia.
 Qed.
 
@@ -553,23 +555,23 @@ Qed.
 
 (* a new region with its new allocation object *)
 Lemma wf_alloc_entry st id t t2 h sz tag kind rs ra e :
-  WF st -> find_id id (d_blocks st) = Some t -> TInv t2 -> g_g (t_gran t2) = 1 ->
+  WF st -> find_id id (d_blocks st) = Some t -> TInv t2 -> g_g (t_gran t2) = 1 -> Inv2 t2 ->
   (exists l1 l2, live t = l1 ++ l2 /\ live t2 = l1 ++ new_blk h sz tag kind rs ra :: l2) ->
   u_blk e = id -> u_off e = h -> u_size e = sz -> tag_ok (length (d_table st)) e tag ->
   pow2 (u_align e) -> 1 <= u_size e ->
   WF (mkD (set_id id t2 (d_blocks st)) (d_table st ++ [Some e]) (d_sentinel st)).
 Proof.
-  intros HW Hf HT2 Hg2 (l1 & l2 & Hl & Hl2) Hb Ho Hs Ht Hpa H1.
+  intros HW Hf HT2 Hg2 HI2 (l1 & l2 & Hl & Hl2) Hb Ho Hs Ht Hpa H1.
   destruct (holdsb_add _ _ _ _ _ _ _ (wf_b _ HW) Hf HT2 Hl Hl2) as (Hiff & Hfresh).
   eapply wf_add_entry with (nb := new_blk h sz tag kind rs ra) (id := id); eauto.
   eapply wfb_set; eauto. apply (wf_b _ HW).
 Qed.
 
 Lemma wf_set_same st id t t' :
-  WF st -> find_id id (d_blocks st) = Some t -> TInv t' -> g_g (t_gran t') = 1 -> live t' = live t ->
+  WF st -> find_id id (d_blocks st) = Some t -> TInv t' -> g_g (t_gran t') = 1 -> Inv2 t' -> live t' = live t ->
   WF (set_block st id t').
 Proof.
-  intros HW Hf HT Hg Hl. unfold set_block. apply wf_same_blocks; auto.
+  intros HW Hf HT Hg HI2 Hl. unfold set_block. apply wf_same_blocks; auto.
   - eapply wfb_set; eauto. apply (wf_b _ HW).
   - eapply holdsb_same; eauto.
 Qed.
@@ -587,19 +589,14 @@ Proof.
   { intros H; injection H as <- <-. split; [auto|apply ext_refl]. }
   apply orb_false_elim in Hchk. destruct Hchk as (Hchk & _). apply orb_false_elim in Hchk. destruct Hchk as (Hp & _).
   apply negb_false_iff in Hp. apply is_pow2_sound in Hp.
-  destruct (wb_tinv _ (wf_b _ HW) _ _ Hf) as (HT & Hg).
+  destruct (wb_tinv _ (wf_b _ HW) _ _ Hf) as (HT & Hg & HI2).
   destruct (create_request t size align false kind 0 max_int) as [t1 r1| | |] eqn:Hcr;
     try (intros H; injection H as <- <-; split; [auto|apply ext_refl]).
-  destruct (request_alloc_spec _ _ _ _ _ _ (Some (Z.of_nat (length (d_table st)))) _ _ HT Hp Hcr)
-    as (HT1 & Hg1 & Hl1 & _ & _ & _ & Hs1 & Hrs & Hal).
-  destruct (alloc t1 r1 _ size align) as [t2 h| |].
-  - destruct Hal as (HT2 & Hg2 & _ & _ & Hle).
-    intros H; injection H as <- <-. split.
-    + eapply wf_alloc_entry; eauto; cbn; try congruence; try apply tag_ok_user. rewrite (Hrs Hg). exact Hs1.
-    + apply ext_add. apply set_id_ids.
-  - intros H; injection H as <- <-. split; [|apply ext_set_block].
-    eapply wf_set_same; eauto. congruence.
-  - intros H; injection H as <- <-. split; [auto|apply ext_refl].
+  destruct (request_alloc_spec _ _ _ _ _ _ (Some (Z.of_nat (length (d_table st)))) _ _ HT HI2 Hp Hcr)
+    as (HT1 & _ & Hg1 & Hl1 & _ & _ & _ & Hs1 & Hrs & t2 & h & Hal & HT2 & HI2' & Hg2 & _ & _ & Hle).
+  rewrite Hal. intros H; injection H as <- <-. split.
+  - eapply wf_alloc_entry; eauto; cbn; try congruence; try apply tag_ok_user. rewrite (Hrs Hg). exact Hs1.
+  - apply ext_add. apply set_id_ids.
 Qed.
 
 (* ================================================================== 5. collecting the moves of a pass *)
@@ -854,7 +851,7 @@ Lemma commit_move_spec st0 ms0 p0 ix cs new st1 did t t2 slot e bi dstidx off :
      live t2 = l1 ++ new_blk off (u_size e) (tmp_tag st1) (u_kind e) (u_size e) (u_align e) :: l2) ->
   In (dstidx, did) ix ->
   (dstidx < bi \/ (did = u_blk e /\ off < u_off e)) ->
-  pass_running (cs_pass cs) -> ps_bytes_moved (p_stats (cs_pass cs)) + u_size e <= p_max_bytes (cs_pass cs) ->
+  pass_running (cs_pass cs) -> (ps_bytes_moved (p_stats (cs_pass cs)) + u_size e <= p_max_bytes (cs_pass cs) /\ ps_allocs_moved (p_stats (cs_pass cs)) < p_max_allocs (cs_pass cs)) ->
   step_post st0 ms0 p0 ix bi (u_off e) new (commit_move cs (set_block st1 did t2) slot e bi dstidx did off).
 Proof.
   intros [A B C D (E1 & E2) F G H I] Hent Htemp Hsrcix Hkeys HW1 Hext1 Htab1 Hfind HT2 Hg2 Hlive Hdstix Hfwd Hrun Hfit.
@@ -940,7 +937,7 @@ Lemma try_lower_spec st0 ms0 p0 ix cs new bi id t h slot e :
   CInv st0 ms0 p0 ix cs new -> entry (cs_st cs) slot = Some e -> u_temp e = false ->
   u_blk e = id -> u_off e = h -> In (bi, id) ix -> Forall (key_above bi h) new ->
   find_id id (d_blocks (cs_st cs)) = Some t ->
-  pass_running (cs_pass cs) -> ps_bytes_moved (p_stats (cs_pass cs)) + u_size e <= p_max_bytes (cs_pass cs) ->
+  pass_running (cs_pass cs) -> (ps_bytes_moved (p_stats (cs_pass cs)) + u_size e <= p_max_bytes (cs_pass cs) /\ ps_allocs_moved (p_stats (cs_pass cs)) < p_max_allocs (cs_pass cs)) ->
   step_post st0 ms0 p0 ix bi h new (try_lower cs bi id t h slot e).
 Proof.
   intros HC Hent Htemp Hblk Hoff Hix Hkeys Hfind Hrun Hfit.
@@ -962,7 +959,7 @@ Qed.
 Lemma lower_if_spec st0 ms0 p0 ix cs new bi id h slot e :
   CInv st0 ms0 p0 ix cs new -> entry (cs_st cs) slot = Some e -> u_temp e = false ->
   u_blk e = id -> u_off e = h -> In (bi, id) ix -> Forall (key_above bi h) new ->
-  pass_running (cs_pass cs) -> ps_bytes_moved (p_stats (cs_pass cs)) + u_size e <= p_max_bytes (cs_pass cs) ->
+  pass_running (cs_pass cs) -> (ps_bytes_moved (p_stats (cs_pass cs)) + u_size e <= p_max_bytes (cs_pass cs) /\ ps_allocs_moved (p_stats (cs_pass cs)) < p_max_allocs (cs_pass cs)) ->
   step_post st0 ms0 p0 ix bi h new (lower_if cs bi id h slot e).
 Proof.
   intros HC Hent Htemp Hblk Hoff Hix Hkeys Hrun Hfit. unfold lower_if.
@@ -977,7 +974,7 @@ Lemma handle_alloc_spec st0 ms0 p0 ids cs new algo bi id h slot e :
   let ix := indexed_from 0 ids in
   CInv st0 ms0 p0 ix cs new -> entry (cs_st cs) slot = Some e -> u_temp e = false ->
   u_blk e = id -> u_off e = h -> In (bi, id) ix -> Forall (key_above bi h) new ->
-  pass_running (cs_pass cs) -> ps_bytes_moved (p_stats (cs_pass cs)) + u_size e <= p_max_bytes (cs_pass cs) ->
+  pass_running (cs_pass cs) -> (ps_bytes_moved (p_stats (cs_pass cs)) + u_size e <= p_max_bytes (cs_pass cs) /\ ps_allocs_moved (p_stats (cs_pass cs)) < p_max_allocs (cs_pass cs)) ->
   step_post st0 ms0 p0 ix bi h new (handle_alloc algo ix cs bi id h slot e).
 Proof.
   intros ix HC Hent Htemp Hblk Hoff Hix Hkeys Hrun Hfit.
@@ -1045,9 +1042,9 @@ Proof.
     assert (Hrun1 : pass_running (cs_pass (cs_set_pass cs p1))).
     { cbn [cs_set_pass cs_pass]. unfold pass_running in *. rewrite F1, F2, F3. exact Hrun. }
     destruct c.
-    + apply check_counters_pass in Hc. destruct Hc as (Hfit & _).
+    + apply check_counters_pass in Hc. destruct Hc as (Hfit & Hlt & _).
       eapply handle_alloc_spec; eauto.
-      cbn [cs_set_pass cs_pass]. rewrite F1, F2. exact Hfit.
+      cbn [cs_set_pass cs_pass]. rewrite F1, F2, F3. split; [exact Hfit|exact Hlt].
     + apply step_post_nil; auto; discriminate.
     + apply step_post_nil; auto; discriminate.
 Qed.
@@ -1201,7 +1198,7 @@ Qed.
 Section CollectTheorems.
   Variables (st : dstate) (c : dctx) (mb ma : Z).
   Hypothesis HW : WF st.
-  Hypothesis Hma : 1 <= ma.
+  Hypothesis Hma : 0 <= ma.
   Hypothesis Hmb : 0 <= mb.
   Hypothesis Hfresh : c_moves c = [].      (* BlockListCompletePass resets the list *)
 
@@ -1933,7 +1930,7 @@ Qed.
 
 (* what one undisturbed all-copy pass does *)
 Lemma one_pass_copy_spec st c mb ma st' c' p' ms :
-  WF st -> c_moves c = [] -> 1 <= ma -> 0 <= mb ->
+  WF st -> c_moves c = [] -> 0 <= ma -> 0 <= mb ->
   one_pass st c mb ma [] [] = Some (st', c', p', ms) ->
   WF st' /\ c_moves c' = [] /\
   map fst (d_blocks st') = map fst (d_blocks st) /\
@@ -2162,7 +2159,7 @@ End PassDecreases.
    allocations of their block index, sum of their offsets); hence a run reaches a pass that
    proposes nothing (RunDone) — or stops with a failure — after finitely many passes. *)
 Theorem run_terminates_copy_only st c mb ma acc n log :
-  WF st -> c_moves c = [] -> 1 <= ma -> 0 <= mb ->
+  WF st -> c_moves c = [] -> 0 <= ma -> 0 <= mb ->
   exists fuel, run_copy fuel st c mb ma acc n log <> RunOutOfFuel.
 Proof.
   intros HW Hfresh Hma Hmb.
@@ -2201,7 +2198,7 @@ Lemma log_bytes_app a b : log_bytes (a ++ b) = log_bytes a + log_bytes b.
 Proof. unfold log_bytes. rewrite map_app, zsum_app. reflexivity. Qed.
 
 Theorem run_stats_accumulate fuel : forall st c mb ma acc n log st' k acc' log',
-  WF st -> c_moves c = [] -> 1 <= ma -> 0 <= mb ->
+  WF st -> c_moves c = [] -> 0 <= ma -> 0 <= mb ->
   run_copy fuel st c mb ma acc n log = RunDone st' k acc' log' ->
   ps_allocs_moved acc' - log_allocs log' = ps_allocs_moved acc - log_allocs log /\
   ps_bytes_moved acc' - log_bytes log' = ps_bytes_moved acc - log_bytes log /\
@@ -2517,7 +2514,7 @@ Qed.
 
 (* what one undisturbed pass with arbitrary decisions does *)
 Lemma one_pass_spec st c mb ma ds ord st' c' p' ms :
-  WF st -> c_moves c = [] -> 0 <= c_immovable c -> 1 <= ma -> 0 <= mb ->
+  WF st -> c_moves c = [] -> 0 <= c_immovable c -> 0 <= ma -> 0 <= mb ->
   one_pass st c mb ma ds ord = Some (st', c', p', ms) ->
   WF st' /\ c_moves c' = [] /\ zlen (d_blocks st') = zlen (d_blocks st) /\ 0 <= c_immovable c' /\
   (has_ignore ms ds = true -> c_immovable c < c_immovable c' <= zlen (d_blocks st)) /\
@@ -2711,7 +2708,7 @@ End PassDecreases2.
    allocation goes down in (block index, offset).  Hence every run reaches a pass that proposes
    nothing (RunDone), or stops with a failure, after finitely many passes. *)
 Theorem run_terminates st c mb ma dec acc n log :
-  WF st -> c_moves c = [] -> 0 <= c_immovable c -> 1 <= ma -> 0 <= mb ->
+  WF st -> c_moves c = [] -> 0 <= c_immovable c -> 0 <= ma -> 0 <= mb ->
   exists fuel, run_any fuel st c mb ma dec acc n log <> RunOutOfFuel.
 Proof.
   intros HW Hfresh Himm Hma Hmb.
@@ -2754,21 +2751,14 @@ Record WInv (w : world) : Prop := mkWInv {
            0 <= c_immovable c /\
            (w_open w = false -> c_moves c = []) /\
            (w_open w = true -> Forall (reserved (w_st w)) (c_moves c) /\
-                               NoDup (map m_src (c_moves c) ++ map m_tmp (c_moves c)));
-  wi_lim : w_begun w = true -> w_max_allocs w <> 0
+                               NoDup (map m_src (c_moves c) ++ map m_tmp (c_moves c)))
 }.
 
-Definition wop_ok (o : wop) : Prop :=
-  match o with OpBegin _ _ ma _ => ma <> 0 | _ => True end.
-
 (* a handler call that failed leaves the block list half-updated (the Go code carries on) *)
-Definition wout_ok (o : wout) : Prop := match o with OutEnd RError _ => False | _ => True end.
+Definition wout_ok (o : wout) : Prop := match o with OutEnd ROk _ => True | OutEnd _ _ => False | _ => True end.
 
 Lemma lim_ge0 v : 0 <= lim v.
 Proof. unfold lim, max_int. destruct (v <? 0) eqn:E; [lia|apply Z.ltb_ge in E; exact E]. Qed.
-
-Lemma lim_ge1 v : v <> 0 -> 1 <= lim v.
-Proof. unfold lim, max_int. destruct (v <? 0) eqn:E; [lia|apply Z.ltb_ge in E; lia]. Qed.
 
 Lemma swap_all_ge ids : forall bl immc acc bl' immc' sws,
   swap_all bl immc ids acc = (bl', immc', sws) -> immc <= immc'.
@@ -2785,15 +2775,15 @@ Proof.
 Qed.
 
 Theorem wstep_preserves w o :
-  WInv w -> wop_ok o -> wout_ok (snd (wstep w o)) -> w_dead (fst (wstep w o)) = false -> WInv (fst (wstep w o)).
+  WInv w -> wout_ok (snd (wstep w o)) -> w_dead (fst (wstep w o)) = false -> WInv (fst (wstep w o)).
 Proof.
-  intros HWI Hok. pose proof HWI as [HW Hctx Hlim]. unfold wstep. destruct (w_dead w) eqn:Hdead; [cbn; congruence|].
-  destruct o as [id size align kind tag|slot|algo mb ma reuse| |ds ord|]; cbn [wop_ok] in Hok.
+  intros HWI. pose proof HWI as [HW Hctx]. unfold wstep. destruct (w_dead w) eqn:Hdead; [cbn; congruence|].
+  destruct o as [id size align kind tag|slot|algo mb ma reuse| |ds ord|].
   - (* user allocation *)
     destruct (user_alloc (w_st w) id size align kind tag) as [st' r] eqn:Hu.
     destruct (user_alloc_wf _ _ _ _ _ _ _ _ HW Hu) as (HW' & Hext).
     assert (Hgo : WInv (w_set_st w st')).
-    { constructor; cbn [w_set_st w_st w_ctx w_open w_begun w_max_allocs]; auto.
+    { constructor; cbn [w_set_st w_st w_ctx w_open]; auto.
       intros c Hc. destruct (Hctx c Hc) as (A & B & C). split; [exact A|]. split; [exact B|].
       intros Ho. destruct (C Ho) as (C1 & C2). split; [|exact C2].
       eapply Forall_impl; [|exact C1]. intros m. apply reserved_ext. exact Hext. }
@@ -2806,7 +2796,7 @@ Proof.
     destruct (existsb _ (pending w)) eqn:Hb; [cbn; intros; exact HWI|].
     destruct (free_slot (w_st w) (Z.to_nat slot)) as [st' k] eqn:Hf.
     assert (Hgo : k <> RPanic -> WInv (w_set_st w st')).
-    { intros Hk. constructor; cbn [w_set_st w_st w_ctx w_open w_begun w_max_allocs]; auto.
+    { intros Hk. constructor; cbn [w_set_st w_st w_ctx w_open]; auto.
       - destruct k; [destruct (free_slot_ok _ _ _ HW Hf); auto| | |congruence];
           rewrite (free_slot_fail _ _ _ _ Hf); auto; discriminate.
       - intros c Hc. destruct (Hctx c Hc) as (A & B & C). split; [exact A|]. split; [exact B|].
@@ -2823,25 +2813,25 @@ Proof.
   - (* BEGIN *)
     destruct (w_open w) eqn:Ho; [cbn; intros; exact HWI|].
     destruct ((algo <? 0) || (2 <? algo)); [cbn; intros; exact HWI|].
-    cbv zeta. cbn [fst snd]. intros _ _. constructor; cbn [w_st w_ctx w_open w_begun w_max_allocs]; auto.
+    cbv zeta. cbn [fst snd]. intros _ _. constructor; cbn [w_st w_ctx w_open]; auto.
     intros c Hc. injection Hc as <-.
-    destruct (w_ctx w) as [c0|] eqn:Hc0.
-    + destruct (Hctx c0 eq_refl) as (A & B & _). destruct (reuse =? 1); cbn [c_immovable c_moves].
-      * split; [exact A|]. split; [intros _; apply B; exact Ho|discriminate].
-      * split; [lia|]. split; [reflexivity|discriminate].
-    + cbn [c_immovable c_moves]. split; [lia|]. split; [reflexivity|discriminate].
+    assert (Hini : forall c0, 0 <= c_immovable (ctx_init c0 algo) /\ (false = false -> c_moves (ctx_init c0 algo) = []) /\
+                     (false = true -> Forall (reserved (w_st w)) (c_moves (ctx_init c0 algo)) /\
+                        NoDup (map m_src (c_moves (ctx_init c0 algo)) ++ map m_tmp (c_moves (ctx_init c0 algo))))).
+    { intros c0. cbn. split; [lia|]. split; [reflexivity|discriminate]. }
+    destruct (w_ctx w) as [c0|]; [destruct (reuse =? 1)|]; apply Hini.
   - (* PASS *)
     destruct (w_begun w) eqn:Hbg; cbn [negb]; [|cbn; intros; exact HWI].
     destruct (w_open w) eqn:Ho; [cbn; intros; exact HWI|].
     destruct (w_ctx w) as [c|] eqn:Hc; [|cbn; intros; exact HWI].
     destruct (Hctx c eq_refl) as (A & B & _). specialize (B eq_refl).
-    pose proof (lim_ge0 (w_max_bytes w)) as Hmb. pose proof (lim_ge1 _ (Hlim eq_refl)) as Hma.
+    pose proof (lim_ge0 (w_max_bytes w)) as Hmb. pose proof (lim_ge0 (w_max_allocs w)) as Hma.
     destruct (collect_moves (w_st w) c (pass_init (lim (w_max_bytes w)) (lim (w_max_allocs w)))) as [cs r] eqn:Hcol.
     pose proof (collect_reserves _ _ _ _ HW Hma Hmb B) as Hres. rewrite Hcol in Hres. cbn [fst] in Hres.
     pose proof (sources_are_user_allocs_once _ _ _ _ HW Hma Hmb B) as Hsrc. rewrite Hcol in Hsrc. cbn [fst] in Hsrc.
     destruct Hres as (HWc & _ & Hres). destruct Hsrc as (_ & N1 & N2 & N3).
     destruct r; cbn [fst snd]; intros _ Hd; try (cbn in Hd; discriminate).
-    all: constructor; cbn [w_st w_ctx w_open w_begun w_max_allocs]; auto.
+    all: constructor; cbn [w_st w_ctx w_open]; auto.
     all: intros c' Hc'; injection Hc' as <-; cbn [c_immovable c_moves]; split; [exact A|]; split; [discriminate|]; intros _; split; [exact Hres|].
     all: apply NoDup_app_intro; auto; intros x Hx1 Hx2; apply in_map_iff in Hx1; destruct Hx1 as (m1 & <- & H1);
       apply in_map_iff in Hx2; destruct Hx2 as (m2 & E & H2); apply (N3 m1 m2 H1 H2); symmetry; exact E.
@@ -2853,7 +2843,7 @@ Proof.
     destruct (r_kind (complete_pass (w_st w) c p ds ord)) eqn:Hk; cbn [fst snd wout_ok]; intros Hout Hd;
       try tauto; try (cbn in Hd; discriminate).
     destruct (complete_pass_wf _ _ _ _ _ HW C1 C2 Hk) as (HW' & _ & _ & _ & Hmv).
-    constructor; cbn [w_st w_ctx w_open w_begun w_max_allocs]; auto.
+    constructor; cbn [w_st w_ctx w_open]; auto.
     intros c' Hc'. injection Hc' as <-. split; [pose proof (complete_pass_immovable (w_st w) c p ds ord); lia|].
     split; [intros _; exact Hmv|discriminate].
   - cbn. intros. exact HWI.
@@ -2861,7 +2851,7 @@ Qed.
 
 Lemma world_init_inv sizes sentinel : Forall (fun s => 0 <= s) sizes -> WInv (world_init sizes sentinel).
 Proof.
-  intros Hs. constructor; cbn; [|discriminate|discriminate].
+  intros Hs. constructor; cbn; [|discriminate].
   assert (Hfind : forall a l id t, find_id id (map (fun q => (fst q, tlsf_init HFake 1 (snd q))) (indexed_from a l)) = Some t ->
                                    exists s, In s l /\ t = tlsf_init HFake 1 s).
   { intros a l; revert a; induction l as [|x r IH]; intros a id t; cbn; [discriminate|].
@@ -2900,32 +2890,68 @@ Proof. vm_compute. auto. Qed.
 
 (* ================================================================== findings reproduced on the model *)
 
-(* Init does not reset immovableBlockCount: a context that is reused for a second run, after a
-   run in which a move was ignored, never looks at the blocks that became immovable again; a
-   fresh context does.  State: one block of 1024, slot 1 (100 bytes) at offset 100, offset 0 free.
-   Run 1 proposes 100 -> 0; the caller ignores the move, the block becomes immovable.
-   Run 2 on the same context object (Init called again) proposes nothing; a fresh context proposes
-   the same move again. *)
+(* C15: a context object that is reused for another run (Init called again) behaves like a fresh
+   one.  Init (after the repair: c.moves = c.moves[:0]; c.immovableBlockCount = 0) leaves in
+   the context exactly what a brand-new context has after Init: the three fields the passes
+   read are equal, hence every pass and every run computed from them is equal. *)
+Definition ctx_fresh (algo : Z) : dctx := ctx_init (mkC 0 [] 0) algo.
+
+Theorem reused_context_is_fresh c0 algo :
+  ctx_init c0 algo = ctx_fresh algo /\
+  c_algo (ctx_init c0 algo) = c_algo (ctx_fresh algo) /\
+  c_moves (ctx_init c0 algo) = [] /\ c_immovable (ctx_init c0 algo) = 0 /\
+  (forall st p, collect_moves st (ctx_init c0 algo) p = collect_moves st (ctx_fresh algo) p) /\
+  (forall st mb ma decide, one_pass_with st (ctx_init c0 algo) mb ma decide = one_pass_with st (ctx_fresh algo) mb ma decide) /\
+  (forall fuel st mb ma dec acc n log,
+     run_any fuel st (ctx_init c0 algo) mb ma dec acc n log = run_any fuel st (ctx_fresh algo) mb ma dec acc n log).
+Proof.
+  assert (E : ctx_init c0 algo = ctx_fresh algo) by reflexivity.
+  split; [exact E|]. split; [reflexivity|]. split; [reflexivity|]. split; [reflexivity|].
+  split; [intros; rewrite E; reflexivity|]. split; intros; rewrite E; reflexivity.
+Qed.
+
+(* the same at the level of the harness protocol: BEGIN on the used context object (reuse = 1)
+   and BEGIN with a new object (reuse = 0) lead to the same world *)
+Theorem begin_reuse_is_begin_fresh w algo mb ma :
+  wstep w (OpBegin algo mb ma 1) = wstep w (OpBegin algo mb ma 0).
+Proof.
+  unfold wstep. destruct (w_dead w); [reflexivity|]. destruct (w_open w); [reflexivity|].
+  destruct (_ || _); [reflexivity|]. destruct (w_ctx w) as [c0|]; reflexivity.
+Qed.
+
+(* the scenario that exposed the defect: one block of 1024, slot 1 (100 bytes) at offset 100,
+   offset 0 free.  Run 1 proposes 100 -> 0, the caller ignores it, the block becomes immovable
+   (c_immovable = 1).  Run 2 on the same context object after Init proposes the move again. *)
 Definition reuse_world : dstate :=
   let st0 := dstate_init [1024] false in
   let st1 := fst (user_alloc (fst (user_alloc st0 0 100 1 2 7)) 0 100 1 2 8) in
   fst (free_slot st1 0).
 
 Definition reuse_after_run1 : option (dstate * dctx) :=
-  match one_pass reuse_world (mkC 2 [] 0) max_int max_int [1] [] with
+  match one_pass reuse_world (ctx_fresh 2) max_int max_int [1] [] with
   | Some (st, c, _, _) => Some (st, c)
   | None => None
   end.
 
-Lemma reused_context_not_fresh_refuted :
+Lemma reused_context_example :
   match reuse_after_run1 with
   | Some (st, c) =>
     c_immovable c = 1 /\
-    (* the same context object after Init (OpBegin with reuse = 1 keeps c_immovable) *)
-    length (cs_moves (fst (collect_moves st (mkC 2 [] (c_immovable c)) (pass_init max_int max_int)))) = 0%nat /\
-    (* a fresh context *)
-    length (cs_moves (fst (collect_moves st (mkC 2 [] 0) (pass_init max_int max_int)))) = 1%nat
+    length (cs_moves (fst (collect_moves st (ctx_init c 2) (pass_init max_int max_int)))) = 1%nat
   | None => False
+  end.
+Proof. vm_compute. auto. Qed.
+
+(* Observation (not a defect: the pinned tests memutils/defrag/complete_pass_test.go fix exactly
+   this computation): BlockListCompletePass derives BytesFreed / AllocationsFreed from
+   Statistics.AllocationCount / AllocationBytes before and after each handler call, so they count
+   the pass's own temporaries (and destroyed sources), not released blocks (VMA uses the block
+   count and block bytes here).  In the run above no block is released and 3 allocations /
+   450 bytes are reported freed.  C15 only constrains the "moved" figures. *)
+Lemma freed_stats_follow_allocation_counts_example :
+  match run_copy 10 ex_world (mkC 2 [] 0) max_int max_int ps_zero 0 [] with
+  | RunDone st _ acc _ => length (d_blocks st) = 2%nat /\ ps_allocs_freed acc = 3 /\ ps_bytes_freed acc = 450
+  | _ => False
   end.
 Proof. vm_compute. auto. Qed.
 
@@ -2953,4 +2979,6 @@ Print Assumptions run_terminates.
 Print Assumptions run_stats_accumulate.
 Print Assumptions wstep_preserves.
 Print Assumptions world_init_inv.
-Print Assumptions reused_context_not_fresh_refuted.
+Print Assumptions reused_context_is_fresh.
+Print Assumptions begin_reuse_is_begin_fresh.
+Print Assumptions freed_stats_follow_allocation_counts_example.
